@@ -308,7 +308,7 @@ def run_scenario(scn: dict, *, eager: bool = False) -> dict:
             stk.pop()
             emit(ev="exit", t=t, n=n, ein=exc_name(exc), eout=exc_name(out),
                  caught=1 if scope.cancelled_caught else 0, called=1 if called else 0,
-                 nc=task.cancelling(), timeout=0)
+                 nc=task.cancelling(), timeout=0, gc=gc())
             if out is not None:
                 raise out
             return ended
@@ -419,7 +419,7 @@ def run_scenario(scn: dict, *, eager: bool = False) -> dict:
         st["stk"][1].pop()
         emit(ev="exit", t=1, n=1, ein=exc_name(exc), eout=exc_name(out),
              caught=1 if scope.cancelled_caught else 0, called=1 if called else 0,
-             nc=task.cancelling(), timeout=0)
+             nc=task.cancelling(), timeout=0, gc=gc())
         if out is not None:
             raise out
 
